@@ -115,9 +115,16 @@ def run_case(case):
         ksp = np.ascontiguousarray(np.swapaxes(ksp, 1, 2)).swapaxes(1, 2)
     ksp0 = ksp.copy()
     try:
-        app = mr.app.EspiritCalib(ksp, calib_width=case["cw"], thresh=case["thresh"],
-                                  kernel_width=case["kw"], crop=case["crop"],
-                                  output_eigenvalue=True, show_pbar=False)
+        if case["eseed"] % 4 == 1:
+            # documented signature (ksp, calib_width, thresh, kernel_width, crop, max_iter,
+            # device, output_eigenvalue, show_pbar) called positionally
+            import sigpy as sp_
+            app = mr.app.EspiritCalib(ksp, case["cw"], case["thresh"], case["kw"], case["crop"],
+                                      100, sp_.cpu_device, True, False)
+        else:
+            app = mr.app.EspiritCalib(ksp, calib_width=case["cw"], thresh=case["thresh"],
+                                      kernel_width=case["kw"], crop=case["crop"],
+                                      output_eigenvalue=True, show_pbar=False)
         if case["eseed"] % 3 == 0:
             # history: a second calibration of the same shape and dtype is constructed before
             # the first one is run (e.g. slice-by-slice processing builds all apps first)
